@@ -76,7 +76,7 @@ def pubkey(k):
 def responder_case(case):
     cfg = gen.simple_cfg(dh='19')
     third = None
-    if case.get('other_peer'):
+    if case.get('other_peer') or case.get('load') == 'own':
         from . import c16
         third = c16.third_cfg(cfg)
     s = SM.Sim(cfg, monitors=[SM.NoEscape(), SM.TableExact()], third=third)
@@ -98,8 +98,16 @@ def responder_case(case):
                 s.w.inflight.remove(o)
         return outs
 
+    if case.get('load') == 'own':
+        # the half-open IKE_SAs are the victim's own initiations towards peers that do not answer (the statement counts
+        # half-open IKE_SAs, whoever started them)
+        h = min(h, 2)
+        for k_, target in enumerate(['b', 'c'][:h]):
+            s.apply(['acquire', 'a', 0, 1] + (['c'] if target == 'c' else []))
+        s.w.inflight.clear()
+        info['over'] = h > T
     # h half-open IKE_SAs (requests that carry whatever cookie they are asked for)
-    for i in range(h):
+    for i in range(h if case.get('load') != 'own' else 0):
         spi = bytes([0xA0, i]) + bytes(6)
         nonce = bytes([i]) * 32
         outs = send(init_request(spi, nonce, pubkey(i)), load_src)
@@ -332,9 +340,9 @@ def run_case(case):
 def body(case, stats):
     fails, info, s = run_case(case)
     if case['kind'] == 'responder':
-        kl = [f'T={case["T"]}', f'h-T={case["h"] - case["T"]}', 'variant:' + case['variant'], 'request:' + case.get('req_kind', 'normal'), 'load-from-other-peer' if case.get('other_peer') else 'load-from-same-peer',
+        kl = [f'T={case["T"]}', f'h-T={case["h"] - case["T"]}', 'variant:' + case['variant'], 'request:' + case.get('req_kind', 'normal'), ('load-own-initiations' if case.get('load') == 'own' else 'load-from-other-peer' if case.get('other_peer') else 'load-from-same-peer'),
               'cookie-demanded' if info['reached'] else 'no-cookie-demanded']
-        fp = [case['T'], case['h'], case['variant'], case.get('k', 0) % 8, case.get('req_kind', 'normal'), bool(case.get('other_peer')), case.get('nonce_len', 32)]
+        fp = [case['T'], case['h'], case['variant'], case.get('k', 0) % 8, case.get('req_kind', 'normal'), bool(case.get('other_peer')), case.get('nonce_len', 32), case.get('load')]
     else:
         kl = [f'initiator:rounds={case["rounds"]}', f'initiator:requests={info["requests"]}'] + \
              (['initiator:then:' + '+'.join(f'{o[0]}@{o[1]}' for o in case['after'])] if case.get('after') else [])
@@ -364,6 +372,9 @@ def all_cases():
                 out.append({'kind': 'responder', 'T': T, 'h': h, 'variant': 'absent', 'k': 0, 'req_kind': rk})
             for v in ('absent', 'correct', 'bitflip', 'other_spi'):
                 out.append({'kind': 'responder', 'T': T, 'h': h, 'variant': v, 'k': 3, 'other_peer': True})
+            if h <= 2 and T <= 1:
+                for v in ('absent', 'correct', 'bitflip'):
+                    out.append({'kind': 'responder', 'T': T, 'h': h, 'variant': v, 'k': 3, 'load': 'own'})
     for rounds in (1, 2, 3):
         for mm in (False, True):
             out.append({'kind': 'initiator', 'rounds': rounds, 'dh_mismatch': mm})
